@@ -10,6 +10,7 @@ open Panrpc
 /-- Source fact: `defer freeClosure()` follows every `registerClosure`. -/
 structure ClosureFreed (sk : Skeleton) : Prop where
   deferred : sk.stubClosureFreeDeferred = true
+  fresh    : sk.clIdFresh = true      -- a fresh id per registration (not one derived from the table's size)
 
 structure CI (s : State) : Prop where
   own_lt     : ∀ id c, s.owner id = some c → id < s.nextClosure
@@ -26,7 +27,7 @@ theorem ci_init : CI init := by constructor <;> simp [init, Call.none]
 theorem ci_step (sk : Skeleton) (hd : ClosureFreed sk) {s s' : State} (a : Act)
     (h : CI s) (hs : step sk s a = some s') : CI s' := by
   obtain ⟨h1, h2, h3, h4, h5, h6, h7, h8⟩ := h
-  obtain ⟨d1⟩ := hd
+  obtain ⟨d1, d2⟩ := hd
   cases a <;> simp only [step] at hs
   all_goals (repeat' split at hs) <;> (try simp at hs) <;> (try subst hs)
   all_goals first
